@@ -11,7 +11,7 @@ HEADER = Pool.HEADER
 CATOMS = ["1", " 12 ", "1_0", "-3", "+4", "1.5", "1e3", "abc", "", " ", "nan", "inf", "-inf", "1e999", "0x10", "_1", "1__0",
           "ON", "Yes", "t", "F", "0", "maybe", "ko", "Ok", "true", "FALSE", "n", 0, 1, 2, -1, 1.9, -1.9, 2.0, float("nan"), float("inf"),
           True, False, None, 10**400, 1e22, 0.1, "0.1", "1.", ".5", "1e-400", "infinity", "NaN", "+inf", "١٢"]
-MALFORMED = ["tuple", "bytes", "object", "complex", "frozenset", "range"]
+MALFORMED = ["tuple", "bytes", "complex", "frozenset", "range"]
 SUBCLASSED = ["_StrSub", "_IntSub", "_ListSub", "_DictSub"]
 
 
@@ -78,15 +78,42 @@ def leaves(d):
 JCLS = {type(None): "null", bool: "boolean", int: "integer", float: "number", str: "string"}
 
 
-def lit_first(t, ns, acc):
-    """first element of `LiteralMethod.types` for every literal / enum node, computed as the visitor does"""
+def real_literal_methods(tp, o):
+    """the `LiteralMethod` objects of the real compiled method tree (their `types` tuple comes out of a set)"""
+    import dataclasses
+    from apischema import deserialization_method
+    from apischema.deserialization.methods import LiteralMethod
+    try:
+        root = deserialization_method(tp, additional_properties=o["ap"], fall_back_on_default=o["fbod"], no_copy=o["nc"],
+                                      coerce=o["coerce"]).__self__
+    except Exception:
+        return []
+    out, seen, todo = [], set(), [root]
+    while todo:
+        m = todo.pop()
+        if id(m) in seen: continue
+        seen.add(id(m))
+        if isinstance(m, LiteralMethod): out.append(m)
+        if dataclasses.is_dataclass(m) and not isinstance(m, type):
+            todo += [getattr(m, f.name, None) for f in dataclasses.fields(m)]
+        elif isinstance(m, (tuple, list)): todo += list(m)
+        elif isinstance(m, dict): todo += list(m.values())
+    return out
+
+
+def lit_first(t, ns, acc, real=None):
+    """`LiteralMethod.types` for every literal / enum node: read off the real method when it can be identified
+    (`typing` treats literals that differ in order as one cache key), else recomputed as the visitor does"""
     from apischema.utils import literal_values
     if t.kind in ("literal", "enum"):
         values = list(eval(t.py, ns)) if t.kind == "enum" else list(t.vals)
         value_map = dict(zip(literal_values(values), values))
         types = tuple(set(map(type, value_map)))
-        if types: acc.append([[lit_proto(v) for v in t.vals], JCLS[types[0]]])
-    for k in t.kids: lit_first(k, ns, acc)
+        for m in real or []:
+            if len(m.value_map) == len(value_map) and all(k in m.value_map and type(k) in m.types for k in value_map):
+                types = m.types; break
+        if types: acc.append([[lit_proto(v) for v in t.vals], [JCLS[c] for c in types]])
+    for k in t.kids: lit_first(k, ns, acc, real)
     return acc
 
 
@@ -125,8 +152,15 @@ def run_impl(tp, d, o, method=False, keep=None):
     except Exception as e: return {"crash": type(e).__name__, "msg": str(e)[:80]}
 
 
+def _others(v):
+    if isinstance(v, list):
+        if len(v) == 2 and v[0] == "o" and v[1] in OTHERS: return val_proto(OTHERS[v[1]]())
+        return [_others(x) for x in v]
+    return v
+
+
 def canon_model(m):
-    if "ok" in m: return {"ok": canon_model_val(m["ok"])}
+    if "ok" in m: return {"ok": canon_model_val(_others(m["ok"]))}
     if "invalid" in m:
         if m.get("mixed"): return {"invalid": None, "errors_crash": "TypeError"}
         return {"invalid": canon_errors(m["invalid"])}
@@ -191,7 +225,7 @@ def gen_cases(prop, seed, n_types, per):
 
 def request(i, t, d, o, ns):
     req = {"id": i, "op": "deser", "opts": o, "ty": t.lean, "d": dproto(d)}
-    if o["coerce"]: req["cenv"] = dict(coerce_env(instantiate(d)), lits=lit_first(t, ns, []))
+    if o["coerce"]: req["cenv"] = dict(coerce_env(instantiate(d)), lits=lit_first(t, ns, [], real_literal_methods(eval(t.py, ns), o)))
     return req
 
 
@@ -205,7 +239,9 @@ def evaluate(prop, t, tp, d, o, ns, mo):
     """returns (impl outcome, k_ok, list of P failures (strings), extra info)"""
     keep = {}
     im = run_impl(tp, d, o, keep=keep)
-    modelled = not has_other(d, SUBCLASSED)
+    # outside the model's datum type: instances of subclasses of the JSON classes; dicts with non-string keys under a
+    # uniqueness test (`to_hashable` sorts the items: whether that works depends on the keys' classes)
+    modelled = not has_other(d, SUBCLASSED) and not ('"dn"' in json.dumps(dproto(d)) and ({"clist", "set", "frozenset"} & t.features()))
     m = canon_model(mo["model"]) if "model" in mo else None
     oos = isinstance(m, dict) and str(m.get("crash", "")).startswith("ModelScope")
     k_ok = None if (m is None or oos or not modelled) else same(im, m)
@@ -229,7 +265,8 @@ def evaluate(prop, t, tp, d, o, ns, mo):
             im2 = run_impl(tp, d, o)
             if im2 != im: fails.append("errors-not-deterministic")
             locs = [json.dumps(e) for e in im["invalid"]]
-            if len(set(locs)) != len(locs): fails.append("violation-reported-twice")
+            # (alternatives of a union may each report the same message at the same place)
+            if not ({"union", "optional"} & t.features()) and len(set(locs)) != len(locs): fails.append("violation-reported-twice")
     elif prop == "C03":
         info["in_scope"] = bool(sc.get("acc") and sc.get("nouq") and sc.get("json") and not o["coerce"])
         if ik == "crash": fails.append("crash:" + im["crash"])
@@ -251,7 +288,8 @@ def evaluate(prop, t, tp, d, o, ns, mo):
         strip = lambda x: {k: v for k, v in x.items() if k != "msg"}
         for key, (out, k2) in outs.items():
             if strip(out) != strip(base):
-                fails.append(f"result-depends-on-{'no_copy' if key[0] else 'precomputed-method'}"); break
+                fails.append(f"result-depends-on-{'no_copy' if key[0] else 'precomputed-method'}")
+                info["differs"] = {"no_copy=False,function": strip(base), f"no_copy={key[0]},method={key[1]}": strip(out)}; break
         from apischema import settings
         prev = settings.deserialization.override_dataclass_constructors
         try:
@@ -263,7 +301,12 @@ def evaluate(prop, t, tp, d, o, ns, mo):
         out, k2 = outs[(False, False)]
         if "value" in k2:
             shared = set(containers(k2["data"])) & set(value_containers(k2["value"]))
-            if shared: fails.append("no_copy=False-shares-a-container-with-the-input")
+            if shared:
+                fails.append("no_copy=False-shares-a-container-with-the-input")
+                paths = [p for p, c in container_paths(k2["data"]) if id(c) in shared]
+                # outermost shared containers only (what is inside a shared container is shared with it)
+                outer = [p for p in paths if not any(q != p and p[:len(q)] == q for q in paths)]
+                info["shared_at_any"] = all(at_any(t, k2["data"], p) for p in outer)
         for key, (out, k2) in outs.items():
             if snapshot(k2["data"]) != snapshot(instantiate(d)): fails.append("input-modified"); break
     elif prop == "C13":
@@ -285,12 +328,49 @@ def evaluate(prop, t, tp, d, o, ns, mo):
         if "ok" in st:
             info["in_scope"] = bool(sc.get("cfrag")) if sc else None
             if ik != "ok": fails.append("strictly-accepted-but-rejected-under-coercion:" + ik + ":" + im.get("crash", ""))
-            elif "union" not in t.features() and "optional" not in t.features() and st["ok"] != im["ok"]:
+            elif "union" not in t.features() and "optional" not in t.features() and not o["fbod"] \
+                    and not any(f["fbod"] for f in all_fields(t)) and st["ok"] != im["ok"]:
+                # (fall-back on default is a union in disguise: a field that fell back strictly may be coerced)
                 fails.append("coercion-changes-an-accepted-value")
         if "strict" in mo and modelled:
             ms = canon_model(mo["strict"])
             if not str(ms.get("crash", "")).startswith("ModelScope") and not same(st, ms): k_ok = False
     return im, m, k_ok, fails, info
+
+
+def all_fields(t):
+    for f in getattr(t, "fields", []): yield f
+    for k in t.kids: yield from all_fields(k)
+
+
+def container_paths(d, path=()):
+    if isinstance(d, list):
+        yield path, d
+        for i, x in enumerate(d): yield from container_paths(x, path + (i,))
+    elif isinstance(d, dict):
+        yield path, d
+        for k, x in d.items(): yield from container_paths(x, path + (k,))
+
+
+def at_any(t, d, path):
+    """does the position `path` of datum `d` lie at (or below) an `Any`-typed position of type `t`"""
+    k = t.kind
+    if k == "any": return True
+    if k in ("newtype", "optional"): return at_any(t.kids[0], d, path)
+    if k == "union": return any(at_any(a, d, path) for a in t.kids)
+    if not path: return False
+    step, rest = path[0], path[1:]
+    if k in ("list", "set", "frozenset", "vtuple", "clist") and isinstance(d, list) and isinstance(step, int) and step < len(d):
+        return at_any(t.kids[0], d[step], rest)
+    if k == "tuple" and isinstance(d, list) and isinstance(step, int) and step < min(len(d), len(t.kids)):
+        return at_any(t.kids[step], d[step], rest)
+    if k in ("mapping", "cdict") and isinstance(d, dict) and step in d:
+        return at_any(t.kids[-1], d[step], rest)
+    if k in ("dataclass", "namedtuple", "typeddict") and isinstance(d, dict) and step in d:
+        for f in t.fields:
+            if f["alias"] == step: return at_any(f["ty"], d[step], rest)
+        return k == "typeddict"       # extra keys of a TypedDict are returned as they are
+    return False
 
 
 def py_equal(a, b):
@@ -356,7 +436,8 @@ def run(prop, seed, budget, ctx):
             samples.append({"type": t.py, "datum": repr(d), "options": o, "outcome": kind_of(im)})
         if fails:
             hist["P:" + fails[0].split(":")[0]] += 1
-            failures.append(pack(t, d, o, kind="P", why=fails, impl=im, model=m, k_ok=k_ok, scope=mo.get("scope")))
+            failures.append(pack(t, d, o, kind="P", why=fails, impl=im, model=m, k_ok=k_ok, scope=mo.get("scope"),
+                                 info={k: v for k, v in info.items() if k != "in_scope"}))
         elif k_ok is False:
             failures.append(pack(t, d, o, kind="K", why="model and implementation disagree", impl=im, model=m, k_ok=False))
     return {"evaluations": len(cases), "distinct_nontrivial": len(distinct), "rule": RULES[prop], "samples": samples,
@@ -408,4 +489,33 @@ def is_known(kid, case):
     return bool(pred and case.get("kind") == "P" and pred(case, why, im, k_ok))
 
 
-KF = {}
+def _same_locs(differs):
+    outs = list(differs.values())
+    if len(outs) != 2 or not all(isinstance(o.get("invalid"), list) for o in outs): return False
+    return sorted(json.dumps(e[0]) for e in outs[0]["invalid"]) == sorted(json.dumps(e[0]) for e in outs[1]["invalid"])
+
+
+def _crash(why, cls): return any(w == "crash:" + cls for w in why)
+
+
+KF = {
+    # ValidationError.errors sorts the children keys: a dict datum with keys of several classes cannot be sorted
+    "KF07": lambda c, why, im, k_ok: any(w.startswith("errors-not-computable:TypeError") for w in why) and k_ok is not False
+                                     and '"dn"' in json.dumps(c["d"]),
+    # float(int) overflows for |int| >= 2**1024 in FloatMethod (strict mode)
+    "KF08a": lambda c, why, im, k_ok: _crash(why, "OverflowError") and k_ok is True and "float" in " ".join(c["features"])
+                                      and ("int too large" in im.get("msg", "")),
+    # unhashable elements where a set is built or uniqueness is tested: Set[List[int]], schema(unique=True) over lists / dicts
+    "KF08b": lambda c, why, im, k_ok: _crash(why, "TypeError") and k_ok is not False and im.get("msg", "").startswith("unhashable type")
+                                      and ({"set", "frozenset", "clist"} & set(c["features"])),
+    # to_hashable() sorts the items of a dict datum (uniqueItems / sets over Any): keys of several classes cannot be ordered
+    "KF08c": lambda c, why, im, k_ok: _crash(why, "TypeError") and k_ok is not False and im.get("msg", "").startswith("'<' not supported")
+                                      and '"dn"' in json.dumps(c["d"]),
+    # a mapping item whose key and value are both invalid: MappingMethod evaluates the value first, MappingCheckOnly the
+    # key first; each reports only one of the two errors, at the same location
+    "KF30": lambda c, why, im, k_ok: why == ["result-depends-on-no_copy"] and k_ok is True and "mapping" in c["features"]
+                                     and _same_locs(c.get("info", {}).get("differs", {})),
+    # a non-string key reaches a key method whose bad_type / pattern / literal lookup raises
+    "KF11": lambda c, why, im, k_ok: why == ["no_copy=False-shares-a-container-with-the-input"] and k_ok is True
+                                     and c.get("info", {}).get("shared_at_any") is True,
+}
